@@ -59,8 +59,43 @@ type sel struct {
 	Panic    string // the code under test panicked (a selection that panics is not well formed)
 }
 
+// index-set shapes. Governance allocates peer indexes monotonically and never reuses them, so a long-lived network has
+// large ones: the shapes below straddle 63/64, start at 64, are sparse, and mix small with very large values.
+var indexKinds = []string{"contiguous", "gaps", "straddle64", "from64", "hundreds", "huge", "sentinel"}
+
 func indexSet(n int, kind string) []uint32 {
 	out := make([]uint32, 0, n)
+	switch kind {
+	case "straddle64": // 62,63,64,65,...
+		for i := 0; i < n; i++ {
+			out = append(out, uint32(62+i))
+		}
+		return out
+	case "from64":
+		for i := 0; i < n; i++ {
+			out = append(out, uint32(64+i))
+		}
+		return out
+	case "hundreds":
+		for i := 1; i <= n; i++ {
+			out = append(out, uint32(100*i))
+		}
+		return out
+	case "huge", "sentinel": // small ones mixed with 2^16, 2^31 and 2^32-2 (sentinel: 2^32-1, the value calcParticipant uses for "no more slots")
+		top := uint32(0xfffffffe)
+		if kind == "sentinel" {
+			top = 0xffffffff
+		}
+		big := []uint32{1, 1 << 16, 1 << 31, top}
+		for i := 0; i < n && i < len(big); i++ {
+			out = append(out, big[i])
+		}
+		for i := 2; len(out) < n; i++ {
+			out = append(out, uint32(i))
+		}
+		sort.Slice(out, func(a, b int) bool { return out[a] < out[b] })
+		return out
+	}
 	if kind == "contiguous" {
 		for i := 1; i <= n; i++ {
 			out = append(out, uint32(i))
@@ -259,6 +294,13 @@ func twoByteVrf(a, b byte) vconfig.VRFValue {
 	return v
 }
 
+func hashedFailKey(d cfgDesc) string {
+	if d.Idx == "sentinel" {
+		return "no_selection_hashed_seed_peer_index_2^32-1"
+	}
+	return "no_selection_hashed_seed_outside_F14_class"
+}
+
 type namedCfg struct {
 	name string
 	cfg  *vconfig.ChainConfig
@@ -352,7 +394,7 @@ func main() {
 	var jobs []job
 	tableShapes := map[string]bool{}
 	for n := 4; n <= maxN; n++ {
-		for _, kind := range []string{"contiguous", "gaps"} {
+		for _, kind := range indexKinds {
 			idx := indexSet(n, kind)
 			for _, h := range []uint32{0, 1, 1000} {
 				for _, o := range orders(n) {
@@ -494,7 +536,7 @@ func main() {
 			} else {
 				t.failStage["no_selection_core_"+fam]++
 				if fam == "sha512_chain" && !(j.d.N%3 == 0 && int(j.d.C) == j.d.N/3) {
-					t.failStage["no_selection_hashed_seed_outside_F14_class"]++
+					t.failStage[hashedFailKey(j.d)]++
 				}
 			}
 			judge("core", s, func() string { return hex.EncodeToString(v[:]) }, func() sel { return coreSelect(v, cloneCfg(c)) })
@@ -512,7 +554,7 @@ func main() {
 			if s.OK {
 				t.prodSel++
 			} else if !(j.d.N%3 == 0 && int(j.d.C) == j.d.N/3) {
-				t.failStage["no_selection_hashed_seed_outside_F14_class"]++
+				t.failStage[hashedFailKey(j.d)]++
 			}
 			seed := vbft.VerifSelectionSeed(blk)
 			judge("prod", s, func() string { return fmt.Sprintf("prevblock#%d seed=%s", k, hex.EncodeToString(seed[:])) },
@@ -661,6 +703,9 @@ func main() {
 	if r.NViolations() == 0 { // vacuity guards only decide a run that found nothing
 		r.Require("cfg_selected", "cfg_no_selection", "selection_wellformed")
 	}
+	r.Note("peer_index_equal_to_sentinel_observation", map[string]any{
+		"statement": "calcParticipant returns math.MaxUint32 for 'no more slots' and calcParticipantPeers treats that value as such: a peer whose index is 2^32-1 makes the selection fail whenever it is drawn (liveness, unreachable with monotonically allocated indexes; not a malformed selection)",
+		"no_selection_for_hashed_seeds_in_that_shape": tot.failStage["no_selection_hashed_seed_peer_index_2^32-1"]})
 	f14out := map[string]any{}
 	f14all := true
 	for k, v := range f14 {
@@ -679,7 +724,7 @@ func main() {
 		"rule":                        "selection is a function of the passed inputs only (equal on servers with any installed config) ∧ never panics ∧ selection returned ⇒ members ∈ PosTable ∧ no duplicates ∧ |P|≥C+1 ∧ |E|,|Cm|≥2C ∧ (E∪Cm)∩P[:C]=∅ ∧ recomputation on copied inputs by another node equal ∧ inputs unmodified; GenesisChainConfig deterministic for equal ordered input",
 		"N_range":                     fmt.Sprintf("4..%d", maxN),
 		"C_values":                    "N/3 (GenesisChainConfig) and 0..floor((N-1)/3) hand-set",
-		"index_sets":                  []string{"contiguous 1..N", "gaps {1,3..N,N+5}"},
+		"index_sets":                  []string{"contiguous 1..N", "gaps {1,3..N,N+5}", "straddle64 {62..62+N-1}", "from64 {64..}", "hundreds {100,200,..}", "huge {1,2..,2^16,2^31,2^32-2}", "sentinel {1,2..,2^16,2^31,2^32-1}"},
 		"genesis_heights":             []uint32{0, 1, 1000},
 		"peer_orders":                 "N<=5: all permutations; N>5: sorted, reversed, all rotations",
 		"configurations":              len(jobs),
